@@ -693,8 +693,25 @@ func rulePOS1(c *Ctx) {
 	var posStmt int = -1
 	for i, s := range emit.Body.List {
 		if as, ok := s.(*ast.AssignStmt); ok && len(as.Rhs) == 1 {
-			if call, ok := as.Rhs[0].(*ast.CallExpr); ok && isMethodOf(Callee(p, call), p.Types, "Compiler", "addInstruction") {
-				if id, ok := as.Lhs[0].(*ast.Ident); ok {
+			if call, ok := as.Rhs[0].(*ast.CallExpr); ok {
+				// the new instruction's offset: returned by addInstruction, or
+				// (the helper inlined) the length of the instruction stream
+				// before the instruction is appended
+				isOffset := isMethodOf(Callee(p, call), p.Types, "Compiler", "addInstruction")
+				if IsBuiltinCall(p, call, "len") && len(call.Args) == 1 && posObj == nil {
+					if inner, ok := call.Args[0].(*ast.CallExpr); ok && Callee(p, inner) != nil && Callee(p, inner).Name() == "currentInstructions" {
+						// must be followed by the append of the instruction
+						for _, t := range emit.Body.List[i+1:] {
+							if containsNode(t, func(m ast.Node) bool {
+								ap, ok := m.(*ast.CallExpr)
+								return ok && IsBuiltinCall(p, ap, "append")
+							}) {
+								isOffset = true
+							}
+						}
+					}
+				}
+				if id, ok := as.Lhs[0].(*ast.Ident); ok && isOffset {
 					posObj = p.TypesInfo.Defs[id]
 					posStmt = i
 				}
@@ -806,40 +823,61 @@ func ruleSEARCH1(c *Ctx) {
 	w := c.W
 	p := w.Parser
 	sf, si := w.FuncDecl(p, "searchFiles"), w.FuncDecl(p, "searchInts")
-	if sf == nil || si == nil {
-		c.anchor("parser.searchFiles / searchInts")
-		return
+	// form 1, wherever it is written (in searchFiles, or inlined in the lookup):
+	// sort.Search(len(A), func(i) bool { return A[i].Base > x }) - 1
+	isForm1 := func(e ast.Expr) bool {
+		b, ok := ast.Unparen(e).(*ast.BinaryExpr)
+		if !ok || b.Op != token.SUB {
+			return false
+		}
+		if k, ok := ConstInt(p, b.Y); !ok || k != 1 {
+			return false
+		}
+		call, ok := ast.Unparen(b.X).(*ast.CallExpr)
+		if !ok || FuncFullName(Callee(p, call)) != "sort.Search" || len(call.Args) != 2 {
+			return false
+		}
+		fl, ok := call.Args[1].(*ast.FuncLit)
+		if !ok || len(fl.Body.List) != 1 {
+			return false
+		}
+		rr, ok := fl.Body.List[0].(*ast.ReturnStmt)
+		if !ok || len(rr.Results) != 1 {
+			return false
+		}
+		cb, ok := gtExpr(rr.Results[0])
+		if !ok || cb.Op != token.GTR {
+			return false
+		}
+		l := strings.ReplaceAll(w.Src(cb.X), " ", "")
+		return strings.HasSuffix(l, "].Base") && strings.ReplaceAll(w.Src(call.Args[0]), " ", "") == "len("+strings.Split(l, "[")[0]+")"
 	}
+	var at ast.Node
 	form1 := false
-	if len(sf.Body.List) == 1 {
-		if r, ok := sf.Body.List[0].(*ast.ReturnStmt); ok && len(r.Results) == 1 {
-			if b, ok := ast.Unparen(r.Results[0]).(*ast.BinaryExpr); ok && b.Op == token.SUB {
-				if k, ok := ConstInt(p, b.Y); ok && k == 1 {
-					if call, ok := ast.Unparen(b.X).(*ast.CallExpr); ok && FuncFullName(Callee(p, call)) == "sort.Search" && len(call.Args) == 2 {
-						if fl, ok := call.Args[1].(*ast.FuncLit); ok && len(fl.Body.List) == 1 {
-							if rr, ok := fl.Body.List[0].(*ast.ReturnStmt); ok && len(rr.Results) == 1 {
-								if cb, ok := gtExpr(rr.Results[0]); ok && cb.Op == token.GTR {
-									l := strings.ReplaceAll(w.Src(cb.X), " ", "")
-									if strings.HasSuffix(l, "].Base") && w.Src(call.Args[0]) == "len("+strings.Split(l, "[")[0]+")" {
-										form1 = true
-									}
-								}
-							}
-						}
-					}
-				}
-			}
+	for _, fd := range []*ast.FuncDecl{sf, w.FuncDecl(p, "SourceFileSet.file")} {
+		if fd == nil {
+			continue
+		}
+		if at == nil {
+			at = fd
+		}
+		if containsNode(fd.Body, func(n ast.Node) bool { e, ok := n.(ast.Expr); return ok && isForm1(e) }) {
+			form1, at = true, fd
 		}
 	}
+	if at == nil {
+		c.anchor("the file lookup of the source file set (searchFiles / SourceFileSet.file)")
+		return
+	}
 	form2 := false
-	if !form1 {
+	if !form1 && sf != nil && si != nil {
 		// bodies only (the parameter types differ by design); prefix notation with
 		// fixed arities, so the bracket-free token sequence is unambiguous
 		a := searchTokens(canonStmts(p, sf, sf.Body.List, map[string]string{".Base": "BASEFIELD"}))
 		b := searchTokens(canonStmts(p, si, si.Body.List, nil))
 		form2 = strings.Count(a, "IndexExpr") == 1 && a == b
 	}
-	c.check(form1 || form2, "lookup/searchFiles", sf, "last file with Base <= x (sort.Search over Base > x, minus one)", "searchFiles is neither `sort.Search(len(a), a[i].Base > x) - 1` nor a clone of searchInts over a[h].Base: error positions at a file boundary can resolve to the wrong file (or to none)")
+	c.check(form1 || form2, "lookup/searchFiles", at, "last file with Base <= x (sort.Search over Base > x, minus one)", "searchFiles is neither `sort.Search(len(a), a[i].Base > x) - 1` nor a clone of searchInts over a[h].Base: error positions at a file boundary can resolve to the wrong file (or to none)")
 	// SourceFileSet.file: the containment test is Base <= p <= Base+Size in both places
 	ff := w.FuncDecl(p, "SourceFileSet.file")
 	if ff != nil {
